@@ -106,3 +106,148 @@ Definition mval_in_range (p : port) (v : mval) : Prop :=
   | VFloat d => pint p = false /\ dy2Q (pmin p) <= dy2Q d <= dy2Q (pmax p)
   | VInt z => pint p = true /\ (dytrunc (pmin p) <= z <= dytrunc (pmax p))%Z
   end.
+
+(* ---- the abstract specification ------------------------------------------------------
+   A finite map  controller -> (address, coarse|fine), a FIFO of (address,
+   kind)s waiting to learn, the realtime side's copy of the map (it follows
+   the non-realtime one with the delay of the channel) and the last 7-bit
+   value of every controller in that copy.  No slots, no index vectors, no
+   callbacks vector, no inv_map, no ring.  The handshake (which controller is
+   offered when) is the protocol's: a FIFO set of offered controllers and
+   the count of addresses the realtime side knows to be waiting. *)
+Local Open Scope Z_scope.
+
+Definition atab := list (Z * (Z * bool)).
+
+Definition ak_eqb (x y : Z * bool) : bool := (fst x =? fst y)%Z && Bool.eqb (snd x) (snd y).
+
+Fixpoint at_find (id : Z) (t : atab) : option (Z * bool) :=
+  match t with
+  | [] => None
+  | (i, k) :: r => if (i =? id)%Z then Some k else at_find id r
+  end.
+
+Fixpoint at_ctl (k : Z * bool) (t : atab) : option Z :=
+  match t with
+  | [] => None
+  | (i, k') :: r => if ak_eqb k' k then Some i else at_ctl k r
+  end.
+
+Definition at_remove (k : Z * bool) (t : atab) : atab :=
+  filter (fun e => negb (ak_eqb (snd e) k)) t.
+
+Definition v7_get (v7 : list (Z * Z)) (id : Z) : Z :=
+  match find (fun e => (fst e =? id)%Z) v7 with Some e => snd e | None => 0%Z end.
+
+Definition part (t : atab) (v7 : list (Z * Z)) (a : Z) (c : bool) : Z :=
+  match at_ctl (a, c) t with Some i => v7_get v7 i | None => 0%Z end.
+
+(* the 14-bit value of an address: coarse controller's value in bits 7..13,
+   fine controller's in bits 0..6, 0 where there is none *)
+Definition comp (t : atab) (v7 : list (Z * Z)) (a : Z) : Z :=
+  (part t v7 a true * 128 + part t v7 a false)%Z.
+
+Inductive amsg := AWatch | AUnwatch | ABind (t : atab).
+
+Record astate := {
+  a_queue : list (Z * bool);
+  a_tab : atab;
+  a_chN : list Z;
+  a_chR : list amsg;
+  a_rtab : atab;
+  a_v7 : list (Z * Z);
+  a_pend : list Z;
+  a_watch : Z
+}.
+
+Definition astate0 : astate :=
+  {| a_queue := []; a_tab := []; a_chN := []; a_chR := []; a_rtab := []; a_v7 := [];
+     a_pend := []; a_watch := 0%Z |}.
+
+Definition obs_of_amsg (m : amsg) : obs :=
+  match m with AWatch => OW | AUnwatch => OR | ABind _ => OB end.
+
+Definition a_send (s : astate) (q : list (Z * bool)) (t : atab) (cn : list Z) (out : list amsg)
+  : astate :=
+  {| a_queue := q; a_tab := t; a_chN := cn; a_chR := a_chR s ++ out; a_rtab := a_rtab s;
+     a_v7 := a_v7 s; a_pend := a_pend s; a_watch := a_watch s |}.
+
+Definition a_unmap_out (s : astate) (k : Z * bool) : atab * list amsg :=
+  match at_ctl k (a_tab s) with
+  | Some _ => (at_remove k (a_tab s), [ABind (at_remove k (a_tab s))])
+  | None => (a_tab s, [])
+  end.
+
+Definition mem_z (x : Z) (l : list Z) : bool := existsb (fun y => (y =? x)%Z) l.
+
+Definition astep (ports : list port) (s : astate) (e : event) : astate * list obs :=
+  match e with
+  | EMap a c =>
+      if qmem a c (a_queue s) then (s, [])
+      else let '(t, out) := a_unmap_out s (a, c) in
+           (a_send s (a_queue s ++ [(a, c)]) t (a_chN s) (out ++ [AWatch]),
+            map obs_of_amsg (out ++ [AWatch]))
+  | EUnmap a c =>
+      let '(t, out) := a_unmap_out s (a, c) in
+      (a_send s (a_queue s) t (a_chN s) out, map obs_of_amsg out)
+  | EClear =>
+      let out := map (fun _ => AUnwatch) (a_queue s) ++ [ABind []] in
+      (a_send s [] [] (a_chN s) out, map obs_of_amsg out)
+  | ECC par val chan nrpn =>
+      let id := cc_id par chan nrpn in
+      match at_find id (a_rtab s) with
+      | Some (a, c) =>
+          let v7 := (id, val) :: a_v7 s in
+          ({| a_queue := a_queue s; a_tab := a_tab s; a_chN := a_chN s; a_chR := a_chR s;
+              a_rtab := a_rtab s; a_v7 := v7; a_pend := a_pend s; a_watch := a_watch s |},
+           match nthZ ports a with
+           | Some p => [OM (run_cb (mk_cb p a) (comp (a_rtab s) v7 a))]
+           | None => []
+           end)
+      | None =>
+          if negb (mem_z id (a_pend s)) && negb (a_watch s =? 0)%Z then
+            ({| a_queue := a_queue s; a_tab := a_tab s; a_chN := a_chN s ++ [id]; a_chR := a_chR s;
+                a_rtab := a_rtab s; a_v7 := a_v7 s; a_pend := a_pend s ++ [id];
+                a_watch := (a_watch s - 1)%Z |}, [OU id])
+          else (s, [])
+      end
+  | EDelN =>
+      match a_chN s with
+      | [] => (s, [OE])
+      | id :: rest =>
+          match a_queue s with
+          | [] => (a_send s [] (a_tab s) rest [], [OA id None])
+          | k :: q =>
+              let t := a_tab s ++ [(id, k)] in
+              (a_send s q t rest [ABind t], [OA id (Some k); OB])
+          end
+      end
+  | EDelR =>
+      match a_chR s with
+      | [] => (s, [OE])
+      | m :: rest =>
+          match m with
+          | AWatch =>
+              ({| a_queue := a_queue s; a_tab := a_tab s; a_chN := a_chN s; a_chR := rest;
+                  a_rtab := a_rtab s; a_v7 := a_v7 s; a_pend := a_pend s;
+                  a_watch := (a_watch s + 1)%Z |}, [])
+          | AUnwatch =>
+              ({| a_queue := a_queue s; a_tab := a_tab s; a_chN := a_chN s; a_chR := rest;
+                  a_rtab := a_rtab s; a_v7 := a_v7 s; a_pend := a_pend s;
+                  a_watch := if (a_watch s =? 0)%Z then 0%Z else (a_watch s - 1)%Z |}, [])
+          | ABind t =>
+              ({| a_queue := a_queue s; a_tab := a_tab s; a_chN := a_chN s; a_chR := rest;
+                  a_rtab := t;
+                  a_v7 := map (fun e => (fst e, match at_find (fst e) (a_rtab s) with
+                                                | Some _ => v7_get (a_v7 s) (fst e)
+                                                | None => 0%Z end)) t;
+                  a_pend := tl (a_pend s); a_watch := a_watch s |}, [])
+          end
+      end
+  end.
+
+Fixpoint arun (ports : list port) (s : astate) (es : list event) : list (list obs) :=
+  match es with
+  | [] => []
+  | e :: r => let '(s', o) := astep ports s e in o :: arun ports s' r
+  end.
